@@ -2,6 +2,7 @@
 import json, os, re
 from lib import vf, cbuild
 from gen import tdma_sched
+from props import c08_gsmtime_part as gsmtime      # part "gsmtime": layer1/sched_gsmtime.c on top of the TDMA scheduler
 
 ID = "C08"
 LEVEL = "proof"
@@ -24,6 +25,11 @@ MANIFEST = {
     "design_ref": "DESIGN.md section 5 C08",
 }
 
+LEAN_MODULES += gsmtime.LEAN_MODULES
+DRIVER_MODULES += gsmtime.DRIVER_MODULES
+LEAN_MODEL_MODULES += gsmtime.LEAN_MODEL_MODULES
+ASSUMPTIONS += gsmtime.ASSUMPTIONS
+
 NF = 25          # scheduler depth the property speaks about
 NCB = 8          # capacity of one frame
 FW_FLAGS = ["-Dputs=fw_puts", "-Dprintf=fw_printf", "-Dputchar=fw_putchar"]
@@ -33,6 +39,7 @@ ERR_CBS = [10, 11, 12]           # 10: -1, 11: -p2-1, 12: -5 iff p3 odd
 
 def gen(run):
     run.consts = tdma_sched.generate(run)
+    gsmtime.gen(run)
 
 
 def build_harness(run, san=False):
@@ -404,6 +411,7 @@ def correspond(run, corr):
                  "stale flags, every priority pattern over {-1,0,1}^<=6 and {0,1}^8; compared: every return code, every callback invocation "
                  "(id, p1, p2, p3, rc) in order, flag_scan values, num_items of all 25 buckets at the dump points")
     corr.samples = [{"request": r[:400], "impl": a[:400], "model": b[:400]} for r, a, b in list(zip(lines, impl, model))[:3]]
+    gsmtime.correspond(run, corr)
 
 
 # ------------------------------------------------------------------------------------------
@@ -738,7 +746,7 @@ def search(run, corr, deep):
     corr.distribution["oracle: histories within the premises"] = stats["ok"] + stats["fail"]
     corr.distribution["oracle: histories outside the premises (skipped)"] = stats["n/a"]
     corr.distribution["oracle: scheduling ops checked"] = items
-    return found
+    return found + gsmtime.search(run, corr, deep)
 
 
 def replay(run, path):
@@ -753,6 +761,9 @@ def replay(run, path):
         w = v.get("witness")
         if not w:
             print("replay: no concrete input recorded (%s)" % json.dumps(v.get("broken"))[:400])
+            continue
+        if w.get("part") == "gsmtime":
+            bad += gsmtime.replay_witness(run, w)
             continue
         cur, ops = parse_line(w["history"])
         res, ans = check_history(exe, cur, ops)
